@@ -213,13 +213,24 @@ def _reset_diagonals(tree, out):
     env = {'allow_pentapy': ('allow_pentapy', 'bool'), '_HAS_PENTAPY': ('has_pentapy', 'bool'),
            'diff_order': ('diff_order', 'Z'), 'allow_lower': ('allow_lower', 'bool'),
            'using_pentapy': ('using_pentapy', 'bool'), 'reverse_diags': ('reverse_diags', 'optbool')}
-    if len(body) < 3:
-        raise TranslateError('reset_diagonals: too short')
-    up = body[0]
-    if not (isinstance(up, ast.Assign) and _u(up.targets[0]) == 'using_pentapy'):
-        raise TranslateError('reset_diagonals: first statement is not using_pentapy = ...')
-    lo = _if_sets_flag(body[1], 'lower_only')
-    nr = _if_sets_flag(body[2], 'needs_reversed')
+    up = _find_assign(body, 'using_pentapy')
+
+    def _flag_if(flag):
+        cands = [st for st in body if isinstance(st, ast.If)
+                 and any(isinstance(a, ast.Assign) and _u(a.targets[0]) == flag for a in st.body)]
+        if len(cands) != 1:
+            raise TranslateError(f'reset_diagonals: expected exactly one top-level `if` setting {flag}, found {len(cands)}')
+        return cands[0]
+    lo_if, nr_if = _flag_if('lower_only'), _flag_if('needs_reversed')
+    if not (up.lineno < lo_if.lineno < nr_if.lineno):
+        raise TranslateError('reset_diagonals: using_pentapy / lower_only / needs_reversed are not computed in this order')
+    lo = _if_sets_flag(lo_if, 'lower_only')
+    nr = _if_sets_flag(nr_if, 'needs_reversed')
+    # the flags must be stored after they are computed and not be touched in between
+    first_store = min(st.lineno for st in body if isinstance(st, ast.Assign)
+                      and _u(st) in ('self.lower = lower_only', 'self.using_pentapy = using_pentapy', 'self.reversed = needs_reversed'))
+    if first_store < nr_if.lineno:
+        raise TranslateError('reset_diagonals: a flag is stored before it is computed')
     # the flags are stored under the attribute names solve() reads
     stores = {_u(st) for st in body if isinstance(st, ast.Assign)}
     for need in ('self.lower = lower_only', 'self.using_pentapy = using_pentapy', 'self.reversed = needs_reversed'):
@@ -547,6 +558,191 @@ def _emit_sites(repo, out):
     out.append(';\n'.join(f'  ({q(a)}, {q(b)}, {q(c)})' for a, b, c in jits))
     out.append('].')
 
+
+# ------------------------------------------------------------------ in-place solver arguments must be fresh buffers
+# scipy's banded / dense solvers write into `b` (overwrite_b) and `ab` / `a` (overwrite_ab / overwrite_a);
+# pentapy never does.  So a buffer handed over with overwrite_*=True must not be reachable from anything the
+# method returns or keeps: otherwise that value depends on which backend ran.
+NP_VIEW_FUNCS = {'asarray', 'asanyarray', 'ravel', 'reshape', 'atleast_1d', 'atleast_2d', 'squeeze', 'transpose',
+                 'broadcast_to', 'ascontiguousarray', 'asfortranarray', 'swapaxes', 'moveaxis', 'expand_dims', 'diagonal'}
+ALLOC_METHODS = {'copy', 'astype', 'dot', 'toarray', 'todense', 'sum', 'mean', 'cumsum', 'tolist', 'repeat', 'take',
+                 'round', 'clip', 'conj', 'min', 'max', 'solve'}
+
+
+def _enclosing_functions(tree):
+    """[(qualified name, FunctionDef)] for every function / method."""
+    res = []
+
+    def visit(node, scope):
+        for ch in ast.iter_child_nodes(node):
+            if isinstance(ch, (ast.FunctionDef, ast.AsyncFunctionDef)):
+                res.append(('.'.join(scope + [ch.name]), ch))
+                visit(ch, scope + [ch.name])
+            elif isinstance(ch, ast.ClassDef):
+                visit(ch, scope + [ch.name])
+            else:
+                visit(ch, scope)
+    visit(tree, [])
+    return res
+
+
+def _own_nodes(fn):
+    """nodes of fn excluding nested function bodies"""
+    out = []
+
+    def visit(node):
+        for ch in ast.iter_child_nodes(node):
+            if isinstance(ch, (ast.FunctionDef, ast.AsyncFunctionDef, ast.ClassDef, ast.Lambda)):
+                continue
+            out.append(ch)
+            visit(ch)
+    visit(fn)
+    return out
+
+
+def _classify(expr, fn, call, depth=0):
+    """'fresh' | 'system-penalty' | 'alias: ...' for the buffer expression `expr` of solver call `call` in fn."""
+    if isinstance(expr, (ast.BinOp, ast.UnaryOp, ast.Compare, ast.BoolOp)):
+        return 'fresh'
+    if isinstance(expr, ast.Call):
+        f = expr.func
+        if isinstance(f, ast.Attribute) and isinstance(f.value, ast.Name) and f.value.id in ('np', 'numpy'):
+            return 'alias: np.' + f.attr if f.attr in NP_VIEW_FUNCS else 'fresh'
+        if isinstance(f, ast.Attribute) and f.attr == 'add_diagonal':
+            return 'system-penalty'
+        if isinstance(f, ast.Attribute) and f.attr in ALLOC_METHODS:
+            if f.attr == 'astype' and any(k.arg == 'copy' for k in expr.keywords):
+                return 'alias: astype(copy=...)'
+            return 'fresh'
+        if isinstance(f, ast.Name) and f.id in ('_shift_rows', '_lower_to_full', '_add_diagonals', '_banded_dot_banded',
+                                                '_banded_dot_vector', 'solve_banded', 'solveh_banded', 'solve'):
+            # _shift_rows works in place on its (already classified) argument; the others allocate
+            return _classify(expr.args[0], fn, call, depth + 1) if f.id == '_shift_rows' else 'fresh'
+        if isinstance(f, ast.Attribute) and f.attr in ('_make_btwb',):
+            return 'fresh'
+        return 'alias: result of ' + _u(f)
+    if isinstance(expr, ast.Name):
+        if depth > 4:
+            return 'alias: definition chain too long'
+        name = expr.id
+        nodes = _own_nodes(fn)
+        defs = []
+        for n in nodes:
+            if getattr(n, 'lineno', 10 ** 9) > call.end_lineno:
+                continue
+            if isinstance(n, ast.Assign):
+                for t in n.targets:
+                    if isinstance(t, ast.Name) and t.id == name:
+                        defs.append(n.value)
+                    elif isinstance(t, (ast.Tuple, ast.List)) and any(isinstance(e, ast.Name) and e.id == name for e in t.elts):
+                        defs.append(None)
+            elif isinstance(n, ast.AnnAssign) and isinstance(n.target, ast.Name) and n.target.id == name and n.value is not None:
+                defs.append(n.value)
+            elif isinstance(n, (ast.For, ast.With, ast.NamedExpr)):
+                tgt = n.target if not isinstance(n, ast.With) else None
+                if tgt is not None and any(isinstance(e, ast.Name) and e.id == name for e in ast.walk(tgt)):
+                    defs.append(None)
+        defs = [d for d in defs if not (d is not None and any(c is call for c in ast.walk(d)))]   # x = solve(..., x)
+        # x = _shift_rows(x, ...) works in place on, and returns, the same object
+        defs = [d for d in defs if not (isinstance(d, ast.Call) and _u(d.func) == '_shift_rows' and d.args
+                                        and isinstance(d.args[0], ast.Name) and d.args[0].id == name)]
+        if not defs:
+            if name in [a.arg for a in fn.args.args + fn.args.kwonlyargs]:
+                return 'alias: parameter ' + name
+            return 'alias: no local definition of ' + name
+        for d in defs:
+            if d is None:
+                return f'alias: {name} comes from tuple unpacking / loop target'
+            c = _classify(d, fn, call, depth + 1)
+            if c != 'fresh':
+                return f'alias: {name} = {_u(d)[:60]} ({c})'
+        # the fresh object must not be stored anywhere else before / around the call
+        loops = [n for n in nodes if isinstance(n, (ast.For, ast.While)) and any(c is call for c in ast.walk(n))]
+        for n in nodes:
+            ln = getattr(n, 'lineno', 10 ** 9)
+            inside_loop = any(any(m is n for m in ast.walk(lp)) for lp in loops)
+            if ln > call.end_lineno and not inside_loop:
+                continue
+            vals = []
+            if isinstance(n, ast.Assign) and not any(c is call for c in ast.walk(n)):
+                vals = [n.value]
+            elif isinstance(n, ast.Return) and n.value is not None:
+                vals = [n.value]
+            elif isinstance(n, ast.Call) and isinstance(n.func, ast.Attribute) and n.func.attr in ('append', 'update', 'setdefault', 'extend', 'insert'):
+                vals = list(n.args) + [k.value for k in n.keywords]
+            for v in vals:
+                elems = [v]
+                if isinstance(v, (ast.Tuple, ast.List, ast.Set)):
+                    elems = list(v.elts)
+                elif isinstance(v, ast.Dict):
+                    elems = list(v.values)
+                if any(isinstance(e, ast.Name) and e.id == name for e in elems):
+                    return f'alias: {name} is also stored by `{_u(n)[:60]}`'
+        return 'fresh'
+    if isinstance(expr, ast.Attribute):
+        return 'alias: attribute ' + _u(expr)
+    if isinstance(expr, ast.Subscript):
+        return 'alias: view ' + _u(expr)[:40]
+    return 'alias: ' + type(expr).__name__
+
+
+def _overwrite_sites(repo):
+    import os
+    from trlib import REPO
+    root = os.path.join(repo or REPO, 'pybaselines')
+    files = []
+    for d, dirs, fs in os.walk(root):
+        dirs[:] = sorted(x for x in dirs if x != '__pycache__')
+        files += [os.path.relpath(os.path.join(d, f), os.path.join(root, '..')) for f in sorted(fs) if f.endswith('.py')]
+    sites = []
+    for rel in sorted(files):
+        tree, _ = _parse(rel, repo)
+        for qual, fn in _enclosing_functions(tree):
+            for n in _own_nodes(fn):
+                if not isinstance(n, ast.Call):
+                    continue
+                flags = {k.arg: k.value for k in n.keywords if k.arg in ('overwrite_b', 'overwrite_ab', 'overwrite_a')}
+                on = {k for k, v in flags.items() if not (isinstance(v, ast.Constant) and v.value is False)}
+                if not on:
+                    continue
+                if any(not isinstance(flags[k], ast.Constant) for k in on):
+                    # forwarded flag (PenalizedSystem.solve passes its own parameters on): not a buffer decision here
+                    if all(isinstance(flags[k], ast.Name) and flags[k].id == k for k in on):
+                        continue
+                    raise TranslateError(f'{rel}:{qual}: overwrite flag is not a constant: {_u(n)[:80]}')
+                fname = _u(n.func)
+                if not (isinstance(n.func, ast.Attribute) and n.func.attr in ('solve', 'solve_pspline')):
+                    # a direct call of a SciPy routine behaves the same in every configuration; only the
+                    # dispatching solve() methods differ between pentapy (never writes) and SciPy (writes)
+                    continue
+                pos = list(n.args)
+                if len(pos) < 2:
+                    raise TranslateError(f'{rel}:{qual}: solver call with fewer than two positional buffers: {_u(n)[:80]}')
+                lhs, rhs = pos[0], pos[1]
+                in_loop = any(isinstance(lp, (ast.For, ast.While)) and any(c is n for c in ast.walk(lp)) for lp in _own_nodes(fn))
+                if 'overwrite_b' in on:
+                    sites.append((rel, qual, 'rhs', _u(rhs)[:70], _classify(rhs, fn, n)))
+                if on & {'overwrite_ab', 'overwrite_a'}:
+                    c = _classify(lhs, fn, n)
+                    if c == 'system-penalty' and in_loop:
+                        c = 'alias: the penalty of a system that is solved again in a loop'
+                    sites.append((rel, qual, 'lhs', _u(lhs)[:70], c))
+    return sorted(sites)
+
+
+def _emit_overwrite(repo, out):
+    def q(t):
+        return '"' + t.replace('"', "'") + '"%string'
+    sites = _overwrite_sites(repo)
+    if not sites:
+        raise TranslateError('no overwrite_b / overwrite_ab solver call found (the recogniser no longer matches the source)')
+    out.append('(* every call of a backend-dispatching solve() method with overwrite_b / overwrite_ab = True: (file, function, which buffer, its')
+    out.append('   expression, classification).  "fresh" = a newly allocated local that nothing else refers to;')
+    out.append('   "system-penalty" = the penalty array of a system that is not used again (left-hand sides only) *)')
+    out.append('Definition overwrite_sites : list (string * string * string * string * string) := [')
+    out.append(';\n'.join('  (' + ', '.join(q(t) for t in site) + ')' for site in sites))
+    out.append('].')
+
 tree2 = [None]
 
 
@@ -570,6 +766,7 @@ def gen_c10(repo=None):
     _beads_kernel(tmi, out)
     _compat(tco, out)
     _emit_sites(repo, out)
+    _emit_overwrite(repo, out)
     return '\n'.join(out) + '\n'
 
 
